@@ -1,4 +1,328 @@
-From Coq Require Import ZArith List Bool Reals Lra Lia.
-From CV Require Import Base.Num Base.RNum C18.ValueModel C17.ExtLagModel.
+(* Lemmas about the model of the extended-Lagrangian integrator (ExtLagModel.v), R instance. *)
+From Coq Require Import ZArith List Bool Reals Lra Lia Psatz.
+From Coquelicot Require Import Coquelicot.
+From CV Require Import Base.Num Base.RNum C18.ValueModel C18.ValueProofs C17.ExtLagModel.
 Import ListNotations.
 Local Open Scope R_scope.
+
+(* ------------------------------------------------------------------ shorthands (R instance) *)
+Definition Dt (c : @config R) : R := c_dt c * IZR (c_tsf c).                 (* the slow time step *)
+Definition free_cfg (c : @config R) : Prop :=
+  c_refl_lo c = false /\ c_refl_up c = false /\ c_period c = None.
+Definition inside (c : @config R) (x : R) : Prop :=
+  (c_refl_lo c = true -> c_lower c <= x) /\ (c_refl_up c = true -> x <= c_upper c).
+
+Lemma big_dt_R c : big_dt Rops c = Dt c.
+Proof. reflexivity. Qed.
+
+(* ------------------------------------------------------------------ parameters *)
+Lemma init_params_k_m c :
+  p_k (init_params Rops PI c) = c_kB c * c_temp c / (c_tol c * c_tol c) /\
+  p_m (init_params Rops PI c) = c_kB c * c_temp c * c_tau c * c_tau c / (4 * PI * PI * c_tol c * c_tol c).
+Proof.
+  unfold init_params. cbn [neqb Rops]. destruct (Reqb' (c_damping c) (n0 Rops)); cbn; split; reflexivity.
+Qed.
+
+Lemma params_documented c :
+  0 < c_kB c * c_temp c -> 0 < c_tol c -> 0 < c_tau c ->
+  let p := init_params Rops PI c in
+  p_k p = c_kB c * c_temp c / (c_tol c) ^ 2 /\
+  p_m p = c_kB c * c_temp c * (c_tau c / (2 * PI * c_tol c)) ^ 2 /\
+  0 < p_k p /\ 0 < p_m p /\
+  2 * PI * sqrt (p_m p / p_k p) = c_tau c /\
+  sqrt (c_kB c * c_temp c / p_k p) = c_tol c.
+Proof.
+  intros HkT Htol Htau p.
+  destruct (init_params_k_m c) as [Hk Hm]. fold p in Hk, Hm.
+  pose proof PI_RGT_0 as Hpi.
+  assert (HkB : c_kB c <> 0) by (intros Z; rewrite Z in HkT; lra).
+  assert (HT : c_temp c <> 0) by (intros Z; rewrite Z in HkT; lra).
+  assert (Hk' : p_k p = c_kB c * c_temp c / c_tol c ^ 2) by (rewrite Hk; field; lra).
+  assert (Hm' : p_m p = c_kB c * c_temp c * (c_tau c / (2 * PI * c_tol c)) ^ 2) by (rewrite Hm; field; lra).
+  assert (Hkpos : 0 < p_k p).
+  { rewrite Hk'. apply Rdiv_lt_0_compat; [lra | apply pow_lt; lra]. }
+  assert (Hq : 0 < c_tau c / (2 * PI * c_tol c)).
+  { apply Rdiv_lt_0_compat; [lra | ]. apply Rmult_lt_0_compat; lra. }
+  assert (Hmpos : 0 < p_m p).
+  { rewrite Hm'. apply Rmult_lt_0_compat; [lra | apply pow_lt; exact Hq]. }
+  repeat split; try assumption.
+  - assert (E : p_m p / p_k p = (c_tau c / (2 * PI)) ^ 2).
+    { rewrite Hk', Hm'. field. repeat split; (assumption || lra). }
+    rewrite E. rewrite <- Rsqr_pow2. rewrite sqrt_Rsqr.
+    + field. lra.
+    + apply Rlt_le. apply Rdiv_lt_0_compat; lra.
+  - assert (E : c_kB c * c_temp c / p_k p = (c_tol c) ^ 2).
+    { rewrite Hk'. field. repeat split; (assumption || lra). }
+    rewrite E. rewrite <- Rsqr_pow2. apply sqrt_Rsqr. lra.
+Qed.
+
+Lemma params_langevin c :
+  c_damping c <> 0 ->
+  let p := init_params Rops PI c in
+  p_langevin p = true /\ p_gamma p = c_damping c / 1000 /\
+  p_sigma p = sqrt ((1 - exp (- 2 * p_gamma p * Dt c)) * p_m p * c_kB c * c_temp c).
+Proof.
+  intros Hd p. unfold p, init_params. cbn [neqb Rops].
+  destruct (Reqb' (c_damping c) (n0 Rops)) eqn:E.
+  - apply Reqb_true in E. cbn in E. contradiction.
+  - cbn. repeat split.
+    + unfold Rdiv. ring.
+    + f_equal. unfold Dt, Rdiv.
+      replace (- (2) * (c_damping c * (1 * / 1000)) * c_dt c * IZR (c_tsf c))
+        with (- 2 * (c_damping c * (1 * / 1000)) * (c_dt c * IZR (c_tsf c))) by ring.
+      reflexivity.
+Qed.
+
+Lemma params_no_langevin c :
+  c_damping c = 0 ->
+  let p := init_params Rops PI c in p_langevin p = false /\ p_gamma p = 0 /\ p_sigma p = 0.
+Proof.
+  intros Hd p. unfold p, init_params. cbn [neqb Rops].
+  destruct (Reqb' (c_damping c) (n0 Rops)) eqn:E.
+  - cbn. rewrite Hd. auto.
+  - exfalso. assert (Reqb' (c_damping c) (n0 Rops) = true) by (apply Reqb_true; cbn; exact Hd). congruence.
+Qed.
+
+(* noise amplitude of the velocity: sigma / m = sqrt ((1 - e^(-2 gamma Dt)) kT / m), and the O step keeps the
+   thermal variance kT/m stationary: a^2 (kT/m) + (sigma/m)^2 = kT/m with a = e^(-gamma Dt) *)
+Lemma langevin_fd (g dt m kT : R) :
+  0 < m -> 0 <= kT -> 0 <= g * dt ->
+  let a := exp (- 1 * dt * g) in
+  let sg := sqrt ((1 - exp (- 2 * g * dt)) * m * kT) in
+  sg / m = sqrt ((1 - exp (- 2 * g * dt)) * kT / m) /\
+  a ^ 2 * (kT / m) + (sg / m) ^ 2 = kT / m.
+Proof.
+  intros Hm HkT Hg a sg.
+  assert (He : exp (- 2 * g * dt) <= 1).
+  { replace 1 with (exp 0) by apply exp_0. destruct (Req_dec (g * dt) 0) as [Z | NZ].
+    - replace (- 2 * g * dt) with 0 by lra. lra.
+    - left. apply exp_increasing. nra. }
+  assert (Hq : 0 <= (1 - exp (- 2 * g * dt)) * kT / m).
+  { unfold Rdiv. apply Rmult_le_pos; [apply Rmult_le_pos; lra | left; apply Rinv_0_lt_compat; lra]. }
+  assert (Hs : sg / m = sqrt ((1 - exp (- 2 * g * dt)) * kT / m)).
+  { unfold sg.
+    replace ((1 - exp (- 2 * g * dt)) * m * kT) with (((1 - exp (- 2 * g * dt)) * kT / m) * (m * m)) by (field; lra).
+    rewrite sqrt_mult; [ | exact Hq | nra ].
+    rewrite sqrt_square by lra. field. lra. }
+  split; [exact Hs | ].
+  rewrite Hs. rewrite <- Rsqr_pow2 with (x := sqrt _). rewrite Rsqr_sqrt by exact Hq.
+  assert (Ha : a ^ 2 = exp (- 2 * g * dt)).
+  { unfold a. simpl. rewrite Rmult_1_r. rewrite <- exp_plus. f_equal. ring. }
+  rewrite Ha. field. lra.
+Qed.
+
+(* ------------------------------------------------------------------ one step of the model, unfolded *)
+Definition f_spring (c : @config R) (p : @params R) (xe x : R) : R := (- (1 / 2) * p_k p) * cv_lgrad Rops c xe x.
+
+Lemma step_running_eq c p s i :
+  i_running i = true -> tsf_error c s i = false ->
+  step Rops c p s i =
+    let xe := fst (props_xv Rops c s i) in
+    let ve := snd (props_xv Rops c s i) in
+    let fs := f_spring c p xe (i_x i) in
+    let fr := i_fb i / IZR (c_tsf c) in
+    let r := integrate Rops c p xe ve (fr + fs) (i_rnd i) in
+    mkState (Some (fst (fst (fst r)))) (snd (fst (fst r))) xe ve (i_step i) (i_x i) false
+            (snd (fst r)) (1 / 2 * p_k p * cv_dist2 Rops c xe (i_x i))
+            (if c_same_step c then s_ft_rep s else if c_subtract c then fs else fr + fs)
+            fr (- 1 * fs * IZR (c_tsf c) + i_fba i) xe ve (snd r).
+Proof.
+  intros Hrun Herr. unfold step. destruct (props_xv Rops c s i) as [xe ve] eqn:Hp.
+  rewrite Hrun, Herr. cbn [negb fst snd]. unfold ext_forces, f_spring.
+  destruct (integrate Rops c p xe ve _ (i_rnd i)) as [[[xn vn] ek] er] eqn:Hi.
+  cbn [fst snd]. reflexivity.
+Qed.
+
+Lemma step_not_running_eq c p s i :
+  i_running i = false ->
+  step Rops c p s i =
+    mkState (Some (clamp_init Rops c (i_x i))) 0 (s_prev_x s) (s_prev_v s) (i_step i) (i_x i) false
+            (s_ekin s) (s_epot s) (s_ft_rep s) 0 (i_fb i + i_fba i) (clamp_init Rops c (i_x i)) 0 false.
+Proof.
+  intros Hrun. unfold step, props_xv. rewrite Hrun. cbn [negb andb orb].
+  rewrite !orb_true_r. reflexivity.
+Qed.
+
+Lemma tup4 {A B C D : Type} (a a' : A) (b b' : B) (c c' : C) (d d' : D) :
+  a = a' -> b = b' -> c = c' -> d = d' -> (a, b, c, d) = (a', b', c', d').
+Proof. intros; subst; reflexivity. Qed.
+
+(* the integrator without reflecting boundaries and wrapping *)
+Lemma integrate_free c p xe ve F rnd :
+  free_cfg c ->
+  integrate Rops c p xe ve F rnd =
+    let v2 := ve + Dt c * F / p_m p in
+    let v3 := if p_langevin p then exp (- (p_gamma p * Dt c)) * v2 + p_sigma p * rnd / p_m p else v2 in
+    (xe + Dt c * (v2 + v3) / 2, v3, 1 / 2 * p_m p * (ve + Dt c * F / p_m p / 2) ^ 2, false).
+Proof.
+  intros (Hlo & Hup & Hper). unfold integrate, reflect, cv_wrap. rewrite Hlo, Hup, Hper. cbn [andb orb].
+  rewrite big_dt_R. cbn [nadd nsub nmul ndiv nneg nexp Rops n1 n0 nofZ nhalf].
+  replace (- (1) * Dt c * p_gamma p) with (- (p_gamma p * Dt c)) by ring.
+  destruct (p_langevin p); cbn zeta; apply tup4; try reflexivity; unfold Rdiv;
+    generalize (/ p_m p); intro q; try (generalize (exp (- (p_gamma p * Dt c))); intro ex); field.
+Qed.
+
+(* ------------------------------------------------------------------ where a step starts from *)
+Lemma props_continue c s i xe :
+  i_running i = true -> i_step i <> s_prev_ts s -> s_x_ext s = Some xe ->
+  (i_step i <> 0%Z \/ s_after_restart s = true) ->
+  props_xv Rops c s i = (xe, s_v_ext s).
+Proof.
+  intros Hrun Hne Hx Hor. unfold props_xv, xext_or. rewrite Hrun, Hx. cbn [negb orb andb].
+  assert (E1 : (Z.eqb (i_step i) 0 && negb (s_after_restart s)) = false).
+  { destruct Hor as [H0 | Har].
+    - apply Z.eqb_neq in H0. rewrite H0. reflexivity.
+    - rewrite Har. apply andb_false_r. }
+  rewrite E1. cbn [orb]. apply Z.eqb_neq in Hne. rewrite Hne. reflexivity.
+Qed.
+
+Lemma props_first c s i :
+  i_running i = true -> i_step i <> s_prev_ts s -> s_x_ext s = None ->
+  props_xv Rops c s i = (clamp_init Rops c (i_x i), 0).
+Proof.
+  intros Hrun Hne Hx. unfold props_xv. rewrite Hrun, Hx. cbn [negb orb andb].
+  rewrite orb_true_r. cbn [orb]. apply Z.eqb_neq in Hne. rewrite Hne. reflexivity.
+Qed.
+
+Lemma props_repeat c s i :
+  i_running i = true -> i_step i = s_prev_ts s ->
+  props_xv Rops c s i =
+    if Rltb (1 / 4) (cv_dist2 Rops c (i_x i) (s_x_old s) / (c_width c * c_width c))
+    then (clamp_init Rops c (i_x i),
+          snd (if (Z.eqb (i_step i) 0 && negb (s_after_restart s)) || (match s_x_ext s with None => true | Some _ => false end)
+               then (clamp_init Rops c (i_x i), 0) else (xext_or s 0, s_v_ext s)))
+    else (s_prev_x s, s_prev_v s).
+Proof.
+  intros Hrun He. unfold props_xv. rewrite Hrun. cbn [negb andb]. rewrite orb_false_r.
+  rewrite He, Z.eqb_refl.
+  destruct ((Z.eqb (s_prev_ts s) 0 && negb (s_after_restart s)) || match s_x_ext s with None => true | Some _ => false end);
+    cbn [snd nltb Rops ndiv nmul n1 nofZ]; reflexivity.
+Qed.
+
+Lemma clamp_free c x : c_refl_lo c = false -> c_refl_up c = false -> clamp_init Rops c x = x.
+Proof. intros Hlo Hup. unfold clamp_init. rewrite Hlo, Hup. reflexivity. Qed.
+
+Lemma clamp_inside c x : c_lower c <= c_upper c -> inside c (clamp_init Rops c x).
+Proof.
+  intros Hle. unfold clamp_init, inside. cbn [nltb Rops].
+  destruct (c_refl_lo c), (c_refl_up c); cbn [andb];
+    repeat match goal with |- context [Rltb ?a ?b] => let E := fresh "E" in destruct (Rltb a b) eqn:E;
+           [apply Rltb_true in E | apply Rltb_false in E] end;
+    split; intros; try discriminate; lra.
+Qed.
+
+Lemma clamp_id c x : inside c x -> clamp_init Rops c x = x.
+Proof.
+  intros [Hlo Hup]. unfold clamp_init. cbn [nltb Rops].
+  destruct (c_refl_lo c) eqn:Elo; cbn [andb].
+  - destruct (Rltb x (c_lower c)) eqn:E1; [apply Rltb_true in E1; specialize (Hlo eq_refl); lra | ].
+    destruct (c_refl_up c) eqn:Eup; cbn [andb]; [ | reflexivity].
+    destruct (Rltb (c_upper c) x) eqn:E2; [apply Rltb_true in E2; specialize (Hup eq_refl); lra | reflexivity].
+  - destruct (c_refl_up c) eqn:Eup; cbn [andb]; [ | reflexivity].
+    destruct (Rltb (c_upper c) x) eqn:E2; [apply Rltb_true in E2; specialize (Hup eq_refl); lra | reflexivity].
+Qed.
+
+(* ------------------------------------------------------------------ the documented integrator (closed form) *)
+(* From (x_t, v_(t-1/2)), the variable's value X_t, the bias force fb_t (already divided by the time-step factor)
+   and a Gaussian number: F_t = fb_t - k (x_t - X_t);  vh = v_(t-1/2) + Dt F_t / m;
+   v_(t+1/2) = vh (no friction) or e^(-gamma Dt) vh + sqrt((1 - e^(-2 gamma Dt)) m kT) rnd / m;
+   x_(t+1) = x_t + Dt (vh + v_(t+1/2)) / 2   [= x_t + Dt v_(t+1/2) without friction: leap-frog]. *)
+Definition doc_force (p : @params R) (x X fb : R) : R := fb - p_k p * (x - X).
+Definition doc_step (c : @config R) (p : @params R) (x v X fb rnd : R) : R * R :=
+  let vh := v + Dt c * doc_force p x X fb / p_m p in
+  let v' := if p_langevin p then exp (- (p_gamma p * Dt c)) * vh + p_sigma p * rnd / p_m p else vh in
+  (x + Dt c * (vh + v') / 2, v').
+Definition doc_ekin (c : @config R) (p : @params R) (x v X fb : R) : R :=
+  1 / 2 * p_m p * (v + Dt c * doc_force p x X fb / p_m p / 2) ^ 2.
+Definition doc_epot (p : @params R) (x X : R) : R := 1 / 2 * p_k p * (x - X) ^ 2.
+
+(* what is observed of a state: (x_t, v_(t-1/2)) reported, (x_(t+1), v_(t+1/2)) stored, Ek, Ep *)
+Definition obs (s : @state R) : R * R * R * R * R * R :=
+  (s_x_rep s, s_v_rep s, xext_or s 0, s_v_ext s, s_ekin s, s_epot s).
+
+Fixpoint doc_run (c : @config R) (p : @params R) (x v : R) (l : list (@input R)) : list (R * R * R * R * R * R) :=
+  match l with
+  | [] => []
+  | i :: r =>
+      let fb := i_fb i / IZR (c_tsf c) in
+      let '(x', v') := doc_step c p x v (i_x i) fb (i_rnd i) in
+      (x, v, x', v', doc_ekin c p x v (i_x i) fb, doc_epot p x (i_x i)) :: doc_run c p x' v' r
+  end.
+
+(* an uninterrupted run: steps t, t + tsf, t + 2 tsf, ..., simulation running *)
+Fixpoint consecutive (tsf t : Z) (l : list (@input R)) : Prop :=
+  match l with
+  | [] => True
+  | i :: r => i_step i = t /\ i_running i = true /\ consecutive tsf (t + tsf) r
+  end.
+
+Lemma f_spring_free c p xe x : c_period c = None -> f_spring c p xe x = - (p_k p * (xe - x)).
+Proof. intros Hper. unfold f_spring, cv_lgrad, sc_grad. rewrite Hper. cbn [nmul nsub nofZ Rops]. field. Qed.
+
+Lemma dist2_free c xe x : c_period c = None -> cv_dist2 Rops c xe x = (xe - x) ^ 2.
+Proof. intros Hper. unfold cv_dist2, sc_dist2. rewrite Hper. cbn [nmul nsub Rops]. ring. Qed.
+
+Lemma step_free_obs (c : @config R) (p : @params R) (s : @state R) (i : @input R) xe ve :
+  free_cfg c -> i_running i = true -> tsf_error c s i = false -> props_xv Rops c s i = (xe, ve) ->
+  let fb := i_fb i / IZR (c_tsf c) in
+  let s' := step Rops c p s i in
+  obs s' = (xe, ve, fst (doc_step c p xe ve (i_x i) fb (i_rnd i)), snd (doc_step c p xe ve (i_x i) fb (i_rnd i)),
+            doc_ekin c p xe ve (i_x i) fb, doc_epot p xe (i_x i)) /\
+  s_x_ext s' = Some (fst (doc_step c p xe ve (i_x i) fb (i_rnd i))) /\
+  s_prev_ts s' = i_step i /\ s_err s' = false /\ s_after_restart s' = false.
+Proof.
+  intros Hfree Hrun Herr Hp fb s'. unfold s'. rewrite (step_running_eq c p s i Hrun Herr). rewrite Hp. cbn [fst snd].
+  rewrite (integrate_free c p _ _ _ _ Hfree). destruct Hfree as (Hlo & Hup & Hper).
+  unfold obs, xext_or. cbn [s_x_rep s_v_rep s_x_ext s_v_ext s_ekin s_epot s_prev_ts s_err s_after_restart fst snd].
+  rewrite (f_spring_free c p xe (i_x i) Hper), (dist2_free c xe (i_x i) Hper).
+  unfold doc_step, doc_ekin, doc_epot, doc_force. fold fb.
+  replace (fb + - (p_k p * (xe - i_x i))) with (fb - p_k p * (xe - i_x i)) by ring.
+  cbn [fst snd]. repeat split; reflexivity.
+Qed.
+
+Lemma tsf_error_consec (c : @config R) (s : @state R) (i : @input R) :
+  (s_prev_ts s = (-1)%Z \/ i_step i = (s_prev_ts s + c_tsf c)%Z \/ i_step i = s_prev_ts s) -> tsf_error c s i = false.
+Proof.
+  intros H. unfold tsf_error. destruct H as [H | [H | H]].
+  - rewrite H. reflexivity.
+  - replace (i_step i - s_prev_ts s)%Z with (c_tsf c) by lia. rewrite Z.eqb_refl. cbn. rewrite !andb_false_r. reflexivity.
+  - replace (i_step i - s_prev_ts s)%Z with 0%Z by lia. cbn. rewrite andb_false_r. reflexivity.
+Qed.
+
+Lemma trace_consecutive_from c p : free_cfg c -> (0 < c_tsf c)%Z ->
+  forall l s xe t, s_x_ext s = Some xe -> s_prev_ts s = (t - c_tsf c)%Z -> (0 <= t - c_tsf c)%Z ->
+    consecutive (c_tsf c) t l ->
+    map obs (trace Rops c p s l) = doc_run c p xe (s_v_ext s) l.
+Proof.
+  intros Hfree Htsf. induction l as [| i r IH]; intros s xe t Hx Hts Ht Hc; [reflexivity | ].
+  destruct Hc as (Hst & Hrun & Hc). cbn [trace map doc_run].
+  assert (Hp : props_xv Rops c s i = (xe, s_v_ext s)).
+  { apply props_continue; auto; [lia | left; lia]. }
+  assert (Herr : tsf_error c s i = false) by (apply tsf_error_consec; right; left; lia).
+  destruct (step_free_obs c p s i xe (s_v_ext s) Hfree Hrun Herr Hp) as (Hobs & Hx' & Hts' & _ & _).
+  destruct (doc_step c p xe (s_v_ext s) (i_x i) (i_fb i / IZR (c_tsf c)) (i_rnd i)) as [x' v'] eqn:Hd.
+  cbn [fst snd] in Hobs, Hx'. rewrite Hobs. f_equal.
+  assert (Hv : s_v_ext (step Rops c p s i) = v').
+  { unfold obs in Hobs. inversion Hobs. reflexivity. }
+  rewrite <- Hv. apply (IH _ x' (t + c_tsf c)%Z); auto; lia.
+Qed.
+
+(* the whole uninterrupted run from a fresh start: the model IS the documented integrator *)
+Lemma trace_fresh_documented c p l :
+  free_cfg c -> (0 < c_tsf c)%Z -> consecutive (c_tsf c) 0 l ->
+  map obs (trace Rops c p (init_state Rops) l) = doc_run c p (match l with i :: _ => i_x i | [] => 0 end) 0 l.
+Proof.
+  intros Hfree Htsf Hc. destruct l as [| i r]; [reflexivity | ].
+  destruct Hc as (Hst & Hrun & Hc). cbn [trace map doc_run].
+  assert (Hp : props_xv Rops c (init_state Rops) i = (i_x i, 0)).
+  { rewrite props_first; auto.
+    - destruct Hfree as (Hlo & Hup & _). rewrite clamp_free; auto.
+    - cbn. lia. }
+  assert (Herr : tsf_error c (init_state Rops) i = false) by (apply tsf_error_consec; left; reflexivity).
+  destruct (step_free_obs c p (init_state Rops) i (i_x i) 0 Hfree Hrun Herr Hp) as (Hobs & Hx' & Hts' & _ & _).
+  destruct (doc_step c p (i_x i) 0 (i_x i) (i_fb i / IZR (c_tsf c)) (i_rnd i)) as [x' v'] eqn:Hd.
+  cbn [fst snd] in Hobs, Hx'. rewrite Hobs. f_equal.
+  assert (Hv : s_v_ext (step Rops c p (init_state Rops) i) = v').
+  { unfold obs in Hobs. inversion Hobs. reflexivity. }
+  rewrite <- Hv. apply (trace_consecutive_from c p Hfree Htsf r _ x' (0 + c_tsf c)%Z); auto; lia.
+Qed.
